@@ -342,10 +342,13 @@ def make_ops(pos, edges, rng, tier, small):
     all permutations for V<=6 (V<=5 in the quick tier) else random non-involutive ones.
     small: lattice comes from the exhaustive tiny-lattice stream -> fewer ops."""
     V, E = len(pos), len(edges)
+    lean = V > 120                      # very large lattices: fewer operations (cost of the implementation)
     ops = [{"op": "cut", "b": [bx, by]} for bx in (False, True) for by in (False, True)]
     ops.append({"op": "trail"})
     sizes = set([0, V])
-    if V <= 8 and not small:
+    if lean:
+        sizes |= {1, V // 2, int(rng.integers(0, V + 1))}
+    elif V <= 8 and not small:
         sizes |= set(range(V + 1))
     else:
         sizes |= {1, min(2, V), V // 2, max(V - 1, 0)}
@@ -372,9 +375,10 @@ def make_ops(pos, edges, rng, tier, small):
         perms = []
         if V:
             perms.append([(i + 1) % V for i in range(V)])          # cyclic shift: non-involutive for V >= 3
-            for _ in range(1 if small else 3):
+            for _ in range(1 if (small or lean) else 3):
                 perms.append([int(x) for x in rng.permutation(V)])
-            perms.append(list(range(V)))
+            if not lean:
+                perms.append(list(range(V)))
     for p in perms:
         ops.append({"op": "perm", "ord": p})
         ops.append({"op": "reord", "perm": p})
@@ -547,11 +551,29 @@ def evaluate(ctx, cases, label, plaquette_budget=None):
                             "report": rep[:10] if rep else rep})
 
 
+SMALL_FAMILIES = ("edge_subset", "relabel", "face_last")
+
+
 def case_list(tier, seed, n_vor=None):
     base = gen.lattice_cases(tier, seed)
+    if tier != "quick":
+        # budget (<= 30 min): every k-th of the tiny-lattice streams (about 5000 of them), 150 of the 400 Voronoi
+        # lattices with everything derived from them
+        small = [b for b in base if b["family"] in SMALL_FAMILIES]
+        big = [b for b in base if b["family"] not in SMALL_FAMILIES]
+        stride = max(1, len(small) // 5000)
+        vor = [b for b in big if b["family"] == "voronoi"]
+        keep_seeds = {b["seed"] for b in vor[:150]}
+
+        def root(b):
+            while "base" in b:
+                b = b["base"]
+            return b
+        big = [b for b in big if root(b)["family"] != "voronoi" or root(b)["seed"] in keep_seeds]
+        base = big + small[::stride]
     cases = []
     for i, b in enumerate(base):
-        small = b["family"] == "edge_subset"
+        small = b["family"] in SMALL_FAMILIES
         cases.append({"lattice": b, "opseed": i, "small": small})
     # derived inputs: trailing-edge removal after cutting (chains of dangling edges), with attached chains
     rng = np.random.default_rng([seed, 12])
